@@ -66,6 +66,20 @@ def make_case(rng, i, tier):
         spec["pad"] = pad
     prefix = [op for op in random_prefix(rng, n=(1, 2)) if op["op"] not in ("pad", "scale", "quantise", "quantise_same", "cutoff", "qnl")] \
         if (i % 5 == 4 and stratum == "B") else []
+    if i % 11 == 7:
+        # a pitch handed over between two channels exactly on a boundary that a wait fills exactly: the higher channel releases
+        # the key on the tick the lower channel strikes it (in canonical order the note-on then precedes the note-off)
+        import random
+        r9 = random.Random(f"c08-handover:{i}")
+        p0 = 70 + r9.randrange(0, 3)
+        a, b = r9.randrange(0, 20), r9.randrange(24, 60)
+        c = b + r9.randint(3, 40)
+        spec["notes"] = [n for n in spec["notes"] if n[1] != p0] + [[1, p0, a, b - a, 91], [0, p0, b, c - b, 92]]
+        caps = [b] + [r9.choice([7, 12, 30]) for _ in range(r9.randint(0, 2))]
+        spec["extra"] = [e for e in spec["extra"] if e[1] < gen.end_of({"notes": spec["notes"], "extra": []})]
+        spec["start"] = r9.choice(["abs", "rel", "both"])
+        spec.pop("split_waits", None)
+        mode = "handover"
     form = ["default", "copy_false", "default", "copy_true", "default", "copy_false_positional", "default", "rel_level", "copy_false",
             "rel_level_tuple"][(i // 2) % 10]
     return {"seq": spec, "caps": caps, "stratum": stratum, "mode": mode, "prefix": prefix, "form": form}
